@@ -21,6 +21,15 @@ Theorem C07_gas_is_sum_of_costs_program : forall E fuel ops limit v v' g tr,
   exec_ops fuel E ops limit v = Ok (v', g, tr) -> g = sum_costs E tr.
 Proof. exact exec_ops_gas. Qed.
 
+(* With a flat price c per operation the reported gas is c times the number of executed operations. *)
+Theorem C07_gas_counts_ops_at_flat_price : forall E c fuel ops limit v v' g tr,
+  (forall o, e_cost E o = c) -> exec_ops fuel E ops limit v = Ok (v', g, tr) -> g = c * zlen tr.
+Proof. exact exec_ops_gas_flat. Qed.
+(* The sum is monotone in the price list: the same executed operations never cost less under higher prices. *)
+Theorem C07_sum_costs_monotone : forall E E' l,
+  (forall o, e_cost E o <= e_cost E' o) -> sum_costs E l <= sum_costs E' l.
+Proof. exact sum_costs_mono. Qed.
+
 (* Inside a Compute: the gas the parent is charged for its children is the sum of the costs of the operations
    the children executed, whatever runs the children, provided each child reports its own sum. *)
 Theorem C07_compute_gas_is_sum_of_children : forall E run f climit v v' c ctr,
